@@ -112,6 +112,17 @@ func genMatcher(e *worlds.Env, b *Builder, o *genOpts) MSpec {
 		}
 		m.And = &a
 	}
+	if m.Not && e.T.Prob(1, 3, "m-not-or") {
+		// not{ {m ...} OR {o} }: the second set is reached only when the first has said no
+		o := MSpec{ID: b.id("m"), Need: genNeed(e), Mode: e.T.Choose(4, "m-mode"), Kind: VYes}
+		if e.T.Prob(2, 3, "m-or-content") {
+			o.Kind, o.Thr = VContent, e.T.Pick("m-thr", 128, 64, 192, 256)
+			if o.Need == 0 {
+				o.Need = 1
+			}
+		}
+		m.Or = &o
+	}
 	return m
 }
 
